@@ -1,7 +1,7 @@
 #!/bin/bash
-# usage: tools/seed_confirm.sh Cxx   -- confirms a seeded change in its scratch worktree /tmp/wt_Cxx
+# usage: tools/seed_confirm.sh Cxx [seed-dir]   -- confirms a seeded change in its scratch worktree /tmp/wt_Cxx
 #   (patch applies, demo exits 0 without / 1 with the change, baseline tests still pass with it)
-ID=$1; WT=/tmp/wt_$ID; SD=/tmp/w/seed_$ID
+ID=$1; WT=/tmp/wt_$ID; SD=${2:-/tmp/w/seed_$ID}
 set -u
 cd $WT || exit 9
 git checkout -q -- . ; git clean -fdq
